@@ -2,6 +2,7 @@
   C15 (continued) — term route, expansion, Pauli powers, Pauli algebra, eigenvalue cache.
 -/
 import QV.Proofs.Hamil
+import QV.Props.C15
 import QV.Core.GI
 import Mathlib.Algebra.Order.Ring.Defs
 import Mathlib.Tactic.IntervalCases
@@ -18,10 +19,9 @@ theorem T15_expand_sound (f : PForm α) (ψ : Lab → α) :
 
 /-- **Symbolic route = dense route** for every well-formed form: summing the ordered
 monomials on a state gives what the dense matrix gives. -/
-theorem T15_symbolic_equals_dense (n : Nat) (f : PForm α)
-    (h : ∀ ψ : Lab → α, mulVec n (dense n f) ψ = f.denote ψ) (ψ : Lab → α) :
+theorem T15_symbolic_equals_dense (n : Nat) (f : PForm α) (h : wf n f) (ψ : Lab → α) :
     monosDenote (expand f) ψ = mulVec n (dense n f) ψ := by
-  rw [h, monosDenote_expand]
+  rw [T15_dense_denotes n f h, monosDenote_expand]
 
 /-- a term built from a monomial denotes the monomial. -/
 theorem T15_term_of_monomial (m : Mono α) (ψ : Lab → α) :
